@@ -169,6 +169,8 @@ def job_solve(cfg):
                     state['K'], state['f'] = K, f
                     incs, cs = A.static(NLgeom=False, silent=True)
                     c = cs[-1]
+                    if len(cs) != 1:
+                        out = (out or []) + [('states-reported-by-the-second-run', Sym.lift(len(cs)), Sym.lift(1))]
                 if list(incs) != [1.]:
                     out = [('static-increments', Sym.lift(len(incs)), Sym.lift(1))]
     except Exception as e:
@@ -216,6 +218,7 @@ def real_solve_replay(cfg):
     rng = np.random.RandomState(4)
     n, active = cfg['n'], cfg['active']
     u = len(active)
+    extra = {}
     A = rng.rand(u, u)
     Kr = A.dot(A.T) + u * np.eye(u)
     for r in cfg.get('zero_diag', ()):
@@ -245,13 +248,16 @@ def real_solve_replay(cfg):
                 f = np.zeros(n)
                 f[active] = rng.rand(u) + 0.5
                 st['K'], st['f'] = sp.csr_matrix(K), f
-                c = A_.static(NLgeom=False, silent=True)[1][-1]
+                incs2, cs2 = A_.static(NLgeom=False, silent=True)
+                c = cs2[-1]
+                extra['increments_of_the_second_run'] = [float(x) for x in incs2]
+                extra['states_reported_by_the_second_run'] = len(cs2)
     except Exception as e:
         return {'error': '%s: %s' % (type(e).__name__, e)}
     c = np.asarray(c)
     res = K.dot(c) - f
     null = [r for r in range(n) if r not in active]
-    return {'max_relative_residual': float(np.abs(res[active]).max() / np.abs(f).max()), 'max_on_null': float(np.abs(c[null]).max()) if null else 0.}
+    return dict({'max_relative_residual': float(np.abs(res[active]).max() / np.abs(f).max()), 'max_on_null': float(np.abs(c[null]).max()) if null else 0.}, **extra)
 
 
 def solve_configs(tier):
@@ -297,7 +303,8 @@ def main():
         sats = run.absorb_job(r)
         if sats:
             real = real_solve_replay(r['cfg'])
-            if real.get('error') or real.get('max_relative_residual', 0) > 1e-9 or real.get('max_on_null', 0) > 0:
+            if (real.get('error') or real.get('max_relative_residual', 0) > 1e-9 or real.get('max_on_null', 0) > 0
+                    or real.get('increments_of_the_second_run', [1.]) != [1.] or real.get('states_reported_by_the_second_run', 1) != 1):
                 run.violation('%s/%s' % (r['group'], sats[0]['name'].split('[')[0]), '%s: %s fails for n=%d active=%s; real function: %s' % (
                     r['cfg']['target'], sats[0]['name'], r['cfg']['n'], r['cfg']['active'], real), {'cfg': r['cfg'], 'failed': [s['name'] for s in sats], 'model': sats[0]['model'], 'real_function': real})
             else:
